@@ -329,6 +329,9 @@ func (s *cutState) res(v ssa.Value) ssa.Value {
 }
 
 // RunCut performs the search.
+// staticCount: RunCut is counting the instructions that can be targets at all (anchor check), not searching paths.
+var staticCount bool
+
 func RunCut(sp0 *CutSpec) CutResult {
 	// the cut predicate also accepts facts implied by the outcome of in-module helpers (implied.go)
 	spc := *sp0
@@ -343,6 +346,8 @@ func RunCut(sp0 *CutSpec) CutResult {
 	if fn == nil || len(fn.Blocks) == 0 {
 		return r
 	}
+	staticCount = true
+	defer func() { staticCount = false }()
 	for _, b := range fn.Blocks {
 		for _, in := range b.Instrs {
 			if sp.Target != nil && sp.Target(in, idRes) {
@@ -364,6 +369,7 @@ func RunCut(sp0 *CutSpec) CutResult {
 			}
 		}
 	}
+	staticCount = false
 	tr := trackedPhis(fn, sp.Track)
 	pinnableVals = testedTwice(fn)
 	for _, f := range sp.Assume {
@@ -632,7 +638,12 @@ func SuccessReturn(idx int, guard FP) func(ssa.Instruction, resolver) bool {
 		if passThroughCut(v, "nil", guard) {
 			return false
 		}
-		if guard != nil && guard(Fact{Op: "nil", X: v}) {
+		// the returned value being nil is itself a fact: if the rule's cut accepts it, the return is behind the cut
+		g := guard
+		if g == nil && !staticCount {
+			g = activeCut
+		}
+		if g != nil && g(Fact{Op: "nil", X: v}) {
 			return false
 		}
 		if anyFact(domFacts(rt.Block()), func(f Fact) bool { return f.Op == "nonnil" && f.X == v }) {
@@ -659,10 +670,40 @@ func TrueReturn(idx int, guard FP) func(ssa.Instruction, resolver) bool {
 		if passThroughCut(v, "true", guard) {
 			return false
 		}
-		if guard != nil {
+		g := guard
+		if g == nil && !staticCount {
+			g = activeCut
+		}
+		if g != nil {
 			// returning the value of a test is passing that test when the result is true
 			for _, f := range condFacts(v, true, res) {
-				if guard(f) {
+				if g(f) {
+					return false
+				}
+			}
+		}
+		return true
+	}
+}
+
+// FalseReturn: a return whose boolean result idx may be false.
+func FalseReturn(idx int) func(ssa.Instruction, resolver) bool {
+	return func(in ssa.Instruction, res resolver) bool {
+		rt, ok := in.(*ssa.Return)
+		if !ok || idx >= len(rt.Results) {
+			return false
+		}
+		v := res(unspill(rt, idx))
+		if b, ok := boolConst(v); ok {
+			return !b
+		}
+		if pinnedAs(v, "true") {
+			return false
+		}
+		if !staticCount && activeCut != nil {
+			// returning the value of a test is failing that test when the result is false
+			for _, f := range condFacts(v, false, res) {
+				if activeCut(f) {
 					return false
 				}
 			}
